@@ -13,6 +13,17 @@
 (* dense values.  The scalar laws  <P t, u> = <t, P u>,  <t - P t, P u> = 0 *)
 (* and the rank law  R(P t) <= 2 R(x)  are checked on the same data, and   *)
 (* riemannian_gradient(x, f) = P(grad f(x)) for three functions f.         *)
+(*                                                                         *)
+(* The laws above characterise *an* orthogonal projector whose range       *)
+(* contains x.  That it is the projector onto the tangent space at the     *)
+(* *current* value of x is stated by two further atoms:                    *)
+(*   oracle       P z = Q Q^T z with Q an orthonormal basis of the range   *)
+(*                of the Jacobian d full(x) / d cores (built densely by    *)
+(*                the harness), and P t = t for tangent vectors t          *)
+(*   oracle_upd   the same after the history  project; set_core(0);        *)
+(*                project; set_core(d-1)  on the same base-point object:   *)
+(*                the projector depends on the value of x only, not on     *)
+(*                calls made earlier (no stale state)                      *)
 (***************************************************************************)
 EXTENDS Integers, Sequences, FiniteSets, TLC
 
@@ -45,7 +56,8 @@ NF(t) ==
                           pz |-> t.ca * n.pz + t.cb * m.pz, pw |-> t.ca * n.pw + t.cb * m.pw]
 
 Init == /\ s \in STRUCTS
-        /\ term \in Terms(DEPTH) \cup {Atom("grad_quad"), Atom("grad_lin"), Atom("grad_quart"), Atom("scalar_laws")}
+        /\ term \in Terms(DEPTH) \cup {Atom("grad_quad"), Atom("grad_lin"), Atom("grad_quart"), Atom("scalar_laws"),
+                                   Atom("oracle"), Atom("oracle_upd")}
         /\ nf = Zero
 Decide == /\ nf = Zero /\ term.op \in {"z", "w", "x", "P", "lin"}
           /\ nf' = NF(term) /\ UNCHANGED <<s, term>>
